@@ -6,6 +6,7 @@
 // satisfies |b - A x| <= gamma_3n |L^||U^||x|; forward error <= |A^-1| * that. Later right-hand sides
 // equally accurate, first one re-solved last bitwise identical.
 #pragma once
+#include <tuple>
 #include "dense.h"
 #include "engine.h"
 #include "LinearAlgebra/csr_matrix.h"
@@ -266,7 +267,42 @@ inline Outcome runSparseLUCase(const KV& c)
                 return o;
             }
     }
-    SparseLUSolver<double> S(*M);
+    // How the solver object that performs the solves came to be ("any number of right-hand sides solved one after
+    // another" by the object that holds the factorisation, however it got there):
+    //   0 constructed from the matrix; 1 copy-ASSIGNED onto a solver holding the factorisation of another matrix of
+    //   dimension n-1, n or n+2; 2 move-assigned onto such a solver; 3 copy-constructed; the original is destroyed first.
+    const int via = (int)c.getI("via", 0);
+    o.cls("solver_via_" + std::to_string(via));
+    auto otherSolver = [&](int m) {
+        // tridiagonal, strictly diagonally dominant, pivots far from those of A
+        std::vector<std::tuple<int, int, double>> t;
+        for (int i = 0; i < m; i++) {
+            if (i > 0)
+                t.emplace_back(i, i - 1, -1.0);
+            t.emplace_back(i, i, 7.0 + i);
+            if (i + 1 < m)
+                t.emplace_back(i, i + 1, 2.0);
+        }
+        SparseMatrixCSR<double> O(m, m, t);
+        return SparseLUSolver<double>(O);
+    };
+    std::unique_ptr<SparseLUSolver<double>> SP;
+    {
+        auto orig = std::make_unique<SparseLUSolver<double>>(*M);
+        if (via == 1 || via == 2) {
+            const int m = std::max(1, n + (int)c.getI("via_dn", 0));
+            SP          = std::make_unique<SparseLUSolver<double>>(otherSolver(m));
+            if (via == 1)
+                *SP = *orig;
+            else
+                *SP = std::move(*orig);
+        }
+        else if (via == 3)
+            SP = std::make_unique<SparseLUSolver<double>>(*orig);
+        else
+            SP = std::move(orig);
+    }
+    const SparseLUSolver<double>& S = *SP;
     M.reset(); // the solver must not depend on the matrix object afterwards
 
     const LD gamma = 3.0L * n * kEpsLU / (1.0L - 3.0L * n * kEpsLU);
@@ -529,6 +565,8 @@ inline KV genSparseLUCase()
     c.putVI("cols", cols);
     c.putVD("vals", vals);
     c.putI("nrhs", rint(1, 4));
+    c.putI("via", rweighted({5, 1, 1, 1}));
+    c.putI("via_dn", rpick({-1, 0, 0, 2}));
     c.putI("rhs_kind", rint(0, 3));
     c.putU("rhs_seed", rseed());
     return c;
